@@ -125,27 +125,39 @@ def isV4 (h : List Char) : Bool :=
   let ps := splitOnC '.' h
   ps.length == 4 && ps.all octetOk
 
-def countDbl : List Char → Nat
-  | ':' :: ':' :: r => 1 + countDbl r
-  | _ :: r => countDbl r
-  | [] => 0
+def hextetOk (g : List Char) : Bool := !g.isEmpty && g.length ≤ 4 && g.all isHex
 
-def singleColonHead : List Char → Bool
-  | [':'] => true
-  | ':' :: c :: _ => c != ':'
-  | _ => false
+/-- `IPv6Address._ip_int_from_string` on the `:`-separated parts, without the embedded-IPv4 tail: 3 to 9 parts, every
+    non-empty part a hextet (1–4 hex digits); no empty part strictly inside ⇒ exactly 8 parts, none empty at the ends;
+    otherwise exactly one `::` (one empty part strictly inside), an empty first (last) part only as part of a
+    leading (trailing) `::`, and at most 7 hextets -/
+def v6PartsOk (parts : List (List Char)) : Bool :=
+  let n := parts.length
+  let empties := (parts.filter (·.isEmpty)).length
+  let firstEmpty := match parts.head? with
+    | some g => g.isEmpty
+    | none => false
+  let lastEmpty := match parts.getLast? with
+    | some g => g.isEmpty
+    | none => false
+  let secondEmpty := match (parts.drop 1).head? with
+    | some g => g.isEmpty
+    | none => false
+  let secondLastEmpty := match parts.dropLast.getLast? with
+    | some g => g.isEmpty
+    | none => false
+  let interior := empties - (if firstEmpty then 1 else 0) - (if lastEmpty then 1 else 0)
+  decide (3 ≤ n) && decide (n ≤ 9) && parts.all (fun g => g.isEmpty || hextetOk g) &&
+  (if interior == 0 then n == 8 && !firstEmpty && !lastEmpty
+   else interior == 1 && (!firstEmpty || secondEmpty) && (!lastEmpty || secondLastEmpty) && decide (n - empties ≤ 7))
 
-/-- IPv6 literal without embedded IPv4: hex groups of 1–4 digits, at most one `::`, optional `%zone` -/
+/-- `ip_address(host)` accepts `host` as IPv6: `addr` or `addr%zone` with a non-empty zone without `%`
+    (`_split_scope_id`) -/
 def isV6 (h : List Char) : Bool :=
-  let (addr, zoneOk) := match splitOnC '%' h with
-    | [a] => (a, true)
-    | [a, z] => (a, !z.isEmpty)
-    | _ => (h, false)
-  let gs := (splitOnC ':' addr).filter (!·.isEmpty)
-  let groupsOk := gs.all fun g => g.length ≤ 4 && g.all isHex
-  zoneOk && groupsOk && !(isInfixL ":::".toList addr) && !singleColonHead addr && !singleColonHead addr.reverse &&
-    (if countDbl addr == 0 then gs.length == 8 && (splitOnC ':' addr).length == 8
-     else countDbl addr == 1 && gs.length ≤ 7)
+  match splitOnC '%' h with
+  | [a] => v6PartsOk (splitOnC ':' a)
+  | [a, z] => !z.isEmpty && v6PartsOk (splitOnC ':' a)
+  | _ => false
 
 def ipVersion (loc : String) : Option Nat :=
   match afterScheme loc.toList with
